@@ -45,6 +45,8 @@ impl<K, V: Clone + Default> SetTree<K, V> {
     /// start an operation from any state. The caller answers for the validity of the snapshot.
     pub fn verif_load(s: VerifSnapshot<V>) -> Self {
         let mut tree = Self::new(0);
+        // slot 0 (the temporary sentinel) stays as `new` initialised it
+        let sentinel = tree.store.buffer[0].clone();
         tree.store.buffer = s
             .nodes
             .into_iter()
@@ -56,6 +58,9 @@ impl<K, V: Clone + Default> SetTree<K, V> {
                 value: n.value,
             })
             .collect();
+        if !tree.store.buffer.is_empty() {
+            tree.store.buffer[0] = sentinel;
+        }
         let mut unused = Vec::with_capacity(s.unused_capacity);
         unused.extend(s.unused);
         tree.store.unused = unused;
